@@ -162,10 +162,9 @@ theorem parse_of_split {msg : Bytes} {parts : List Bytes} (hs : splitUs msg = pa
     cases msg with
     | nil => exact absurd rfl hne
     | cons _ _ => rfl
-  have h2 : ¬ parts.length < Facts.C40.minParts := by
-    show ¬ parts.length < 2
-    omega
-  simp only [h1, hs, h2, if_false]
+  have h2 : Facts.C40.tooFewParts (parts.length : Int) = false := by
+    simp [Facts.C40.tooFewParts]; omega
+  simp only [h1, hs, h2, Bool.false_eq_true, if_false]
   rfl
 
 theorem joinUs_ne_nil_of_two (parts : List Bytes) (h : 2 ≤ parts.length) : joinUs parts ≠ [] := by
@@ -225,6 +224,12 @@ theorem digitsVal_zeros (k : Nat) (ds : Bytes) : digitsVal (List.replicate k 48 
 /-! ### Duration arithmetic -/
 
 theorem wrap64_id (x : Int) (h : -2 ^ 63 ≤ x ∧ x < 2 ^ 63) : wrap64 x = x := by
+  unfold wrap64; omega
+
+theorem floodDuration_eq (a : Int) : Facts.C40.floodDuration a = 1000000000 * a := rfl
+theorem floodTimerArg_eq (d : Int) : Facts.C40.floodTimerArg d = d + 1000000000 := rfl
+
+theorem wrap64_range (x : Int) : -2 ^ 63 ≤ wrap64 x ∧ wrap64 x < 2 ^ 63 := by
   unfold wrap64; omega
 
 end TdModel.C40
